@@ -42,8 +42,10 @@ def check(ctx):
              "parent's ann_stack")
     ctx.rule("C09-F", "preformat tags: first/cont annotations pushed last onto clones of ann_stack iff pre_depth>0; "
              "RichDecorator maps them to Preformat(false)/Preformat(true)")
+    ctx.rule("C09-G", "the pushed style is unwound on the renderer it was applied to: the number of sub-renderers an arm pushes "
+             "after apply equals the number it pops before unwind (a cell's style lives on the cell's own renderer)")
     for rid, fn in (("C09-A", rule_a), ("C09-B", rule_b), ("C09-C", rule_c), ("C09-D", rule_d),
-                    ("C09-E", rule_e), ("C09-F", rule_f)):
+                    ("C09-E", rule_e), ("C09-F", rule_f), ("C09-G", rule_g)):
         ctx.guard(rid, fn)
 
 
@@ -568,3 +570,47 @@ def rule_f(ctx):
                   not has_call(a4, "TextDecorator::decorate_preformat_first"),
                   "C09-F", "add_text:(main=first, wrap=cont)", t["span"], b.id,
                   "main tag must carry the first-line annotation, wrap tag the continuation annotation")
+
+
+def _stack_calls(b, blocks, which):
+    return [bb for bb, t in b.calls(lambda cd, t: ends(cd, "TextRenderer::<D>::" + which)) if blocks is None or bb in blocks]
+
+
+def rule_g(ctx):
+    F = ctx.facts
+    drn = F.one("do_render_node")
+    info = F.adt("RenderNodeInfo")
+    names = {v["discr"]: v["name"] for v in info["variants"]}
+    ap = drn.calls(lambda cd, t: ends(cd, "PushedStyleInfo::apply"))
+    require(len(ap) == 1, "apply call")
+    from ..util import find_dispatch
+    disp = find_dispatch(drn, "RenderNodeInfo", 10, after=ap[0][0])
+    n = 0
+    for v, tb in drn.term(disp)["targets"]:
+        vn = names.get(v, str(v))
+        region = drn.reach_from(tb)
+        # bodies in which this arm's value may be unwound: the arm itself, closures created in it, helpers it calls
+        cands = [(drn, region)]
+        pushes = len(_stack_calls(drn, region, "push"))
+        for (bb, i, cb, ops, fields) in closure_bodies_created_in(F, drn):
+            if bb in region:
+                cands.append((cb, None))
+        for x in region:
+            t = drn.term(x)
+            if t["k"] == "call" and callee_def(t) in F.bodies and F.bodies[callee_def(t)].kind != "Closure" and \
+                    any("PushedStyleInfo" in (op_place(a) or {}).get("ty", "") for a in t["args"]):
+                hb = F.bodies[callee_def(t)]
+                cands.append((hb, None))
+                pushes += len(_stack_calls(hb, None, "push"))
+                for _bb2, cb2 in transitive_closures(F, hb):
+                    cands.append((cb2, None))
+        for body, blocks in cands:
+            uws = [(bb, t) for bb, t in body.calls(lambda cd, t: ends(cd, "PushedStyleInfo::unwind")) if blocks is None or bb in blocks]
+            for ubb, ut in uws:
+                # is this unwind consuming an upvar/param/local of type PushedStyleInfo (always, by type)
+                pops = [pb for pb in _stack_calls(body, blocks, "pop") if body.dominates(pb, ubb) and pb != ubb]
+                n += 1
+                ctx.check(len(pops) == pushes, "C09-G", "arm:%s:unwind-at-apply-level" % vn, ut["span"], fn_key(body),
+                          "the %s arm pushes %d sub-renderer(s) after applying the node's style but pops %d before unwinding it: the "
+                          "style would be unwound on a different renderer than it was applied to" % (vn, pushes, len(pops)))
+    ctx.floor("C09-G", "unwind sites checked against the stack level of apply", n, 25)
